@@ -35,6 +35,7 @@ ASSUMPTIONS = [
 # key: (function that contains the source, kind, descriptor)  -> reason
 ALLOWED = {
     ("_action:Action.continue_task", "raise", "RuntimeError"): "API misuse: task_id not supplied",
+    ("_action:Action.continue_task", "raise", "ValueError"): "API misuse: malformed task id (the pinned code raises ValueError for it as well, from unpacking the split / int())",
     ("_action:preserve_context.restore_eliot_context", "raise", "TooManyCalls"): "documented single-use error",
     ("_action:log_call", "raise", "ValueError"): "decoration-time: include_args names unknown parameter",
     ("_output:FileDestination.__new__", "raise", "RuntimeError"): "construction-time: file not writable",
@@ -141,6 +142,11 @@ def rule_contain(chk, only=None):
     containment of a few entry points only"""
     ctx = chk.ctx
     ct = ctx.contain
+    # the containment analysis rests on the fan-out loop of Destinations.send (each destination call wrapped, failures reported after the
+    # loop, the report's own recursion cut by the message-type guard): if that loop is not there in a recognisable form, nothing below is
+    # meaningful -- not evaluated rather than a list of spurious escapes
+    from . import c08
+    c08.fanout_anchor(ctx)
     entries = entry_points(chk)
     if only is not None:
         entries = {f: l for f, l in entries.items() if l in set(only)}
@@ -159,6 +165,8 @@ def rule_contain(chk, only=None):
                 continue
             if _optional_argument_validation(ctx, src):
                 continue
+            if src.kind == "raise" and isinstance(src.node, ast.Raise) and src.node.exc is None and src.func.fq == "_action:log_call.logging_wrapper":
+                continue  # a bare `raise` in a handler of the wrapper hands the application's own exception on unchanged
             if src.func.fq == "_action:log_call.logging_wrapper" and src.kind != "raise" and any(
                     w_ in source_descriptor(src) for w_ in ("signature", ".bind", "apply_defaults", "getcallargs")):
                 continue  # argument binding: raises TypeError exactly when the undecorated call would
